@@ -289,6 +289,18 @@ func abs(c *agent.Config, f *cfgField) interface{} {
 
 type mergeVec map[string][]interface{} // kind -> [x, y, z]
 
+// switch independence (focus "hot"): the bool field hotField takes the triple hotTriple, every other field the
+// triple of its kind
+var hotField string
+var hotTriple []interface{}
+
+func (v mergeVec) of(f *cfgField) []interface{} {
+	if hotField != "" && f.path == hotField {
+		return hotTriple
+	}
+	return v[f.kind]
+}
+
 func vecOf(st h.Step) mergeVec {
 	v := mergeVec{}
 	for _, k := range []string{"ov", "or", "lw", "map", "list"} {
@@ -305,7 +317,7 @@ func vecOf(st h.Step) mergeVec {
 func buildConfig(fs []cfgField, v mergeVec, src int) *agent.Config {
 	c := &agent.Config{}
 	for i := range fs {
-		conc(c, &fs[i], v[fs[i].kind][src])
+		conc(c, &fs[i], v.of(&fs[i])[src])
 	}
 	return c
 }
@@ -328,7 +340,7 @@ func jsonOf(fs []cfgField, v mergeVec, src int, salt int) []byte {
 	m := map[string]interface{}{}
 	for i := range fs {
 		f := &fs[i]
-		a := v[f.kind][src]
+		a := v.of(f)[src]
 		explicit := (f.n+salt)%2 == 0
 		switch f.kind {
 		case "raw":
@@ -430,65 +442,86 @@ func runMerge(in, out, dir string) {
 		tr.Reset(s.ID, nil)
 		for _, st := range s.Steps {
 			v := vecOf(st)
-			listSpare = 4 * (s.ID % 2)
-			mk := func(i int) *agent.Config { return buildConfig(fs, v, i) }
-			// pairwise merge; inputs compared with identically built copies afterwards
-			a, b := mk(0), mk(1)
-			ab := agent.MergeConfig(a, b)
-			// left and right nesting on fresh inputs
-			la, lb, lc := mk(0), mk(1), mk(2)
-			l := agent.MergeConfig(agent.MergeConfig(la, lb), lc)
-			r := agent.MergeConfig(mk(0), agent.MergeConfig(mk(1), mk(2)))
-			// a HISTORY of merges with a shared left operand: base = x+y, then base+z and base+x.  Every earlier
-			// result and input is projected again only after the last merge (see the field loop below).
-			hd, hf := mk(0), mk(1)
-			hbase := agent.MergeConfig(hd, hf)
-			hx := agent.MergeConfig(hbase, mk(2))
-			hy := agent.MergeConfig(hbase, mk(0))
-			// files
-			vd := filepath.Join(dir, fmt.Sprintf("v%d", s.ID))
-			names := []string{"f-a.json", "f-b.json", "f-c.json"}
-			var paths []string
-			for i, n := range names {
-				p := filepath.Join(vd, n)
-				write(p, jsonOf(fs, v, i, s.ID+i))
-				paths = append(paths, p)
-			}
-			fcfg, err := agent.ReadConfigPaths(paths)
-			if err != nil {
-				h.Die("ReadConfigPaths(files) failed on generated files: %v", err)
-			}
-			dd := filepath.Join(vd, "d")
-			for i, n := range []string{"10-a.json", "20-b.json", "30-c.json"} {
-				write(filepath.Join(dd, n), jsonOf(fs, v, i, s.ID+i+1))
-			}
-			write(filepath.Join(dd, "15-noise.txt"), noiseJSON(fs))
-			write(filepath.Join(dd, "40-noise.json.bak"), noiseJSON(fs))
-			write(filepath.Join(dd, "25-sub.json", "x.json"), noiseJSON(fs))
-			dcfg, err := agent.ReadConfigPaths([]string{dd})
-			if err != nil {
-				h.Die("ReadConfigPaths(dir) failed on generated files: %v", err)
-			}
-			os.RemoveAll(vd)
-			a0, b0, c0 := mk(0), mk(1), mk(2)
-			for i := range fs {
-				f := &fs[i]
-				same := func(p, q *agent.Config) int {
-					return b2i(fullEqual(reflect.ValueOf(p).Elem().FieldByIndex(f.index), reflect.ValueOf(q).Elem().FieldByIndex(f.index)))
+			// focus "hot": the vector is run once per bool field of agent.Config, that field taking the "hot" triple
+			hots := []string{""}
+			if st.Str("focus") == "hot" {
+				hots = nil
+				for i := range fs {
+					if fs[i].kind == "or" || fs[i].kind == "lw" {
+						hots = append(hots, fs[i].path)
+					}
 				}
-				act := map[string]interface{}{"a": "field", "f": f.path, "k": f.kind,
-					"x": v[f.kind][0], "y": v[f.kind][1], "z": v[f.kind][2]}
-				obs := map[string]interface{}{"una": same(a, a0), "unb": same(b, b0),
-					"un3": []int{same(la, a0), same(lb, b0), same(lc, c0)}, "unh": []int{same(hd, a0), same(hf, b0)}}
-				if f.kind == "raw" {
-					obs["ab"], obs["l"], obs["r"], obs["fs"], obs["dir"] = 0, 0, 0, 0, 0
-					obs["hb"], obs["hx"], obs["hy"] = 0, 0, 0
-				} else {
-					obs["ab"], obs["l"], obs["r"], obs["fs"], obs["dir"] = abs(ab, f), abs(l, f), abs(r, f), abs(fcfg, f), abs(dcfg, f)
-					obs["hb"], obs["hx"], obs["hy"] = abs(hbase, f), abs(hx, f), abs(hy, f)
+				hotTriple = st.List("hot")
+				if len(hotTriple) != 3 {
+					h.Die("hot vector without hot triple: %v", st)
 				}
-				tr.Step(act, obs)
 			}
+			for hi, hname := range hots {
+				hotField = hname
+				vd := filepath.Join(dir, fmt.Sprintf("v%d-%d", s.ID, hi))
+				listSpare = 4 * (s.ID % 2)
+				mk := func(i int) *agent.Config { return buildConfig(fs, v, i) }
+				// pairwise merge; inputs compared with identically built copies afterwards
+				a, b := mk(0), mk(1)
+				ab := agent.MergeConfig(a, b)
+				// left and right nesting on fresh inputs
+				la, lb, lc := mk(0), mk(1), mk(2)
+				l := agent.MergeConfig(agent.MergeConfig(la, lb), lc)
+				r := agent.MergeConfig(mk(0), agent.MergeConfig(mk(1), mk(2)))
+				// a HISTORY of merges with a shared left operand: base = x+y, then base+z and base+x.  Every earlier
+				// result and input is projected again only after the last merge (see the field loop below).
+				hd, hf := mk(0), mk(1)
+				hbase := agent.MergeConfig(hd, hf)
+				hx := agent.MergeConfig(hbase, mk(2))
+				hy := agent.MergeConfig(hbase, mk(0))
+				// files
+				names := []string{"f-a.json", "f-b.json", "f-c.json"}
+				var paths []string
+				for i, n := range names {
+					p := filepath.Join(vd, n)
+					write(p, jsonOf(fs, v, i, s.ID+i))
+					paths = append(paths, p)
+				}
+				fcfg, err := agent.ReadConfigPaths(paths)
+				if err != nil {
+					h.Die("ReadConfigPaths(files) failed on generated files: %v", err)
+				}
+				dd := filepath.Join(vd, "d")
+				for i, n := range []string{"10-a.json", "20-b.json", "30-c.json"} {
+					write(filepath.Join(dd, n), jsonOf(fs, v, i, s.ID+i+1))
+				}
+				write(filepath.Join(dd, "15-noise.txt"), noiseJSON(fs))
+				write(filepath.Join(dd, "40-noise.json.bak"), noiseJSON(fs))
+				write(filepath.Join(dd, "25-sub.json", "x.json"), noiseJSON(fs))
+				dcfg, err := agent.ReadConfigPaths([]string{dd})
+				if err != nil {
+					h.Die("ReadConfigPaths(dir) failed on generated files: %v", err)
+				}
+				os.RemoveAll(vd)
+				a0, b0, c0 := mk(0), mk(1), mk(2)
+				for i := range fs {
+					f := &fs[i]
+					if hotField != "" && f.kind != "or" && f.kind != "lw" {
+						continue // switch-independence vectors: only the switches are judged
+					}
+					same := func(p, q *agent.Config) int {
+						return b2i(fullEqual(reflect.ValueOf(p).Elem().FieldByIndex(f.index), reflect.ValueOf(q).Elem().FieldByIndex(f.index)))
+					}
+					act := map[string]interface{}{"a": "field", "f": f.path, "k": f.kind,
+						"x": v.of(f)[0], "y": v.of(f)[1], "z": v.of(f)[2]}
+					obs := map[string]interface{}{"una": same(a, a0), "unb": same(b, b0),
+						"un3": []int{same(la, a0), same(lb, b0), same(lc, c0)}, "unh": []int{same(hd, a0), same(hf, b0)}}
+					if f.kind == "raw" {
+						obs["ab"], obs["l"], obs["r"], obs["fs"], obs["dir"] = 0, 0, 0, 0, 0
+						obs["hb"], obs["hx"], obs["hy"] = 0, 0, 0
+					} else {
+						obs["ab"], obs["l"], obs["r"], obs["fs"], obs["dir"] = abs(ab, f), abs(l, f), abs(r, f), abs(fcfg, f), abs(dcfg, f)
+						obs["hb"], obs["hx"], obs["hy"] = abs(hbase, f), abs(hx, f), abs(hy, f)
+					}
+					tr.Step(act, obs)
+				}
+			}
+			hotField = ""
 		}
 	}
 	if err := tr.Close(); err != nil {
